@@ -54,14 +54,15 @@ class OdeContract(Obligation):
 class Assembly(Obligation):
     """values the driver assembles at the wave positions and at the nodes of each rarefaction fan"""
 
-    def __init__(self, gl, gr, pattern, case, prefix, n=G.NPTS, generic=True):
+    def __init__(self, gl, gr, pattern, case, prefix, n=G.NPTS, generic=True, problem='igeos'):
         self.gl, self.gr, self.pattern, self.n, self.case, self.generic = gl, gr, pattern, n, case, generic
-        self.id = '%s.geos.%s.%d%d.gl=%s.gr=%s' % (prefix, pattern, case[0], case[1], gl, gr)
+        self.problem = problem
+        self.id = '%s.geos.%s%s.%d%d.gl=%s.gr=%s' % (prefix, '' if problem == 'igeos' else problem + '.', pattern, case[0], case[1], gl, gr)
         self.modules = G.modules()
         self.extra_shim = G.shim_extra(pattern, case)
         m, u = H.mod(G.RM), H.mod(G.UM)
         self.functions = [m.RiemannGenEOS.driver, u.r_int_call, u.match_shocks, u.shock_jump, u.star_velocity, u.shock_speed,
-                          u.sound_speed, u.sie]
+                          u.sound_speed, u.sie] + ([u.JWL_f, u.JWL_dfdr, u.dsdr_cP, u.dsdp_cR] if problem != 'igeos' else [])
         self.bounds = ('left/right state, membrane position, time symbolic; gamma pair fixed; wave pattern %s; %d nodes per '
                        'rarefaction table, %d per shock table; empty internal grid (num_x_pts = 0): the grid is the wave '
                        'positions plus the user points' % (pattern, n, n + 2))
@@ -73,7 +74,12 @@ class Assembly(Obligation):
         self.budget_s = 240
 
     def build(self, mk):
-        prob, st, xd0, t = G.make(mk, self.gl, self.gr, n=self.n)
+        kw = {}
+        if self.problem != 'igeos':
+            # JWL flag: the five JWL constants symbolic; the rarefaction tables are ARBITRARY monotone node values (no closed
+            # form of the integral curve), the shock tables satisfy the real JWL shock_jump by the bisect contract
+            kw = dict(A=mk('A'), B=mk('B'), R1=mk('R1'), R2=mk('R2'), r0=mk('r0'))
+        prob, st, xd0, t = G.make(mk, self.gl, self.gr, n=self.n, problem=self.problem, **kw)
         u = H.mod(G.UM)
         out = {}
         q = []
@@ -116,7 +122,10 @@ class Assembly(Obligation):
         return out
 
     def domain(self, V):
-        return G.domain(V, self.generic)
+        d = G.domain(V, self.generic)
+        if self.problem != 'igeos':
+            d += [T.gt(V(n), T.ZERO) for n in ('A', 'B', 'R1', 'R2', 'r0')]
+        return d
 
     def claims(self, cx):
         if '_other_pattern' in cx:
@@ -293,6 +302,8 @@ def obligations(prefix, tier, patterns=('RCR', 'RCS', 'SCR', 'SCS'), mirror=Fals
             nr = n - 1 if pat[2] == 'R' else n + 1
             for il in range(nl):
                 for ir in range(nr):
+                    if tier == 'thorough' and not mirror and (gl, gr) == pairs[0] and 'R' in pat:
+                        obs.append(Assembly(gl, gr, pat, (il, ir), prefix, generic=True, problem='JWL'))
                     if mirror:
                         obs.append(Mirror(gl, gr, pat, (il, ir), prefix, generic=(tier != 'thorough')))
                     else:
